@@ -107,8 +107,8 @@ theorem check_agg (s : Selector) (op : ScriptOp) (rest : Script) (u : Unit) (h :
 
 /-- the shape of what `simpleExpressionPlanner.planner` builds for a selector with conditions -/
 theorem simpleSel_shape (c : Ctx) (pfx : String) (s : Selector) (op : ScriptOp) (rest : Script) (X : Sel) (e : AttrExp)
-    (h : simpleSel c pfx ((s, op) :: rest) = .ok X) (he : s.attrs = some e) (hr : c.rndMax = 0) :
-    ∃ es, mapOk termSql (analyzeCond [] e).1 = .ok es ∧
+    (h : simpleSel c pfx ((s, op) :: rest) = .ok X) (he : s.attrs = some e) :
+    ∃ es, mapOk termSql (analyzeCond [] e).1 = .ok es ∧ (analyzeCond [] e).1.length ≤ 64 ∧
       ((s.agg = none ∧ X = grpSel pfx [] none (idxSel c es (analyzeCond [] e).2 "")) ∨
        (∃ a f v, s.agg = some a ∧ cmpSql a.cmp = some f ∧ aggCmpText a = .ok v ∧ (a.fn ≠ .count → a.attr ≠ "") ∧
           X = grpSel pfx [] (aggHaving pfx a.fn f v) (idxSel c es (analyzeCond [] e).2 a.attr))) := by
@@ -123,8 +123,8 @@ theorem simpleSel_shape (c : Ctx) (pfx : String) (s : Selector) (op : ScriptOp) 
       cases ha : attrCondition c (analyzeCond [] e).1 (analyzeCond [] e).2 "" with
       | error m => simp [ha] at h
       | ok SA =>
-        obtain ⟨es, hm, rfl⟩ := attrCondition_shape c _ _ _ SA ha hr
-        refine ⟨es, hm, Or.inl ⟨rfl, ?_⟩⟩
+        obtain ⟨es, hm, rfl, h64⟩ := attrCondition_shape c _ _ _ SA ha
+        refine ⟨es, hm, h64, Or.inl ⟨rfl, ?_⟩⟩
         simp [ha, pure, Except.pure, indexGroupBy_idx] at h
         exact h.symm
     | some a =>
@@ -132,8 +132,8 @@ theorem simpleSel_shape (c : Ctx) (pfx : String) (s : Selector) (op : ScriptOp) 
       cases ha : attrCondition c (analyzeCond [] e).1 (analyzeCond [] e).2 a.attr with
       | error m => simp [ha] at h
       | ok SA =>
-        obtain ⟨es, hm, rfl⟩ := attrCondition_shape c _ _ _ SA ha hr
-        refine ⟨es, hm, Or.inr ?_⟩
+        obtain ⟨es, hm, rfl, h64⟩ := attrCondition_shape c _ _ _ SA ha
+        refine ⟨es, hm, h64, Or.inr ?_⟩
         simp only [ha, pure, Except.pure, indexGroupBy_idx] at h
         unfold aggregator at h
         cases hf : cmpSql a.cmp with
@@ -195,39 +195,41 @@ theorem grpSel_addCols (pfx : String) (hav : Option Expr) (SA : Sel) (extra : Li
 /-- **one selector**: the select planned for a selector (with whatever columns a parent node adds) returns
     one row per trace the selector matches -/
 theorem simple_traceRows (o : Oracles) (ao : AggOracles) (hp : PermInv ao) (c : Ctx) (d : TraceDb)
-    (hr : c.rndMax = 0) (hcons : DurConsistent d) (pfx : String) (s : Selector) (op : ScriptOp) (rest : Script) (X : Sel)
+    (hcons : DurConsistent (d.seen o c)) (pfx : String) (s : Selector) (op : ScriptOp) (rest : Script) (X : Sel)
     (h : simpleSel c pfx ((s, op) :: rest) = .ok X) (hs : SelOk s) (extra : List Expr) (env : Env) :
-    TraceRows (evalSelG o ao (d.toDb c) true env (X.addCols extra)) (fun tr => selMatches o ao c d s tr = true) := by
-  obtain ⟨e, he, hinj, h64⟩ := hs.attrs
-  obtain ⟨es, hm, hX⟩ := simpleSel_shape c pfx s op rest X e h he hr
+    TraceRows (evalSelG o ao (d.toDb c) true env (X.addCols extra)) (fun tr => selMatches o ao c (d.seen o c) s tr = true) := by
+  obtain ⟨e, he, hinj⟩ := hs.attrs
+  obtain ⟨es, hm, h64, hX⟩ := simpleSel_shape c pfx s op rest X e h he
+  have hstage := fun (own : Bool) (env0 : Env) (aggAttr : String) => stageA_perm o ao c d own env0 e es aggAttr hinj hm h64
+  generalize d.seen o c = ds at hcons hstage ⊢
   -- the common part: stage A feeding stage B
   have key : ∀ (aggAttr : String) (hav : Option Expr),
       (∀ env' : Env, ∀ g g' : List Row, g.Perm g' → havingG o ao env' g hav = havingG o ao env' g' hav) →
       TraceRows (evalSelG o ao (d.toDb c) true env (grpSel pfx extra hav (idxSel c es (analyzeCond [] e).2 aggAttr)))
-        (fun tr => matchedSpans o c d e tr ≠ [] ∧
+        (fun tr => matchedSpans o c ds e tr ≠ [] ∧
           havingG o ao ((.named (pfx ++ "index_search"), evalSelG o ao (d.toDb c) false env (idxSel c es (analyzeCond [] e).2 aggAttr)) :: env)
-            (((matchedSpans o c d e tr).map (rowA o env c d (es ++ aggWhere aggAttr) aggAttr)).map (qualify (pfx ++ "index_search"))) hav = true) := by
+            (((matchedSpans o c ds e tr).map (rowA o env c ds (es ++ aggWhere aggAttr) aggAttr)).map (qualify (pfx ++ "index_search"))) hav = true) := by
     intro aggAttr hav hperm
     unfold grpSel
     rw [evalSelG_true]
     simp only [evalWithsG]
     have hSR : SpanRows (evalSelG o ao (d.toDb c) false env (idxSel c es (analyzeCond [] e).2 aggAttr))
-        ((spans c d).filter (spanHolds o c d e)) (rowA o env c d (es ++ aggWhere aggAttr) aggAttr) := by
-      have hne : ∀ k ∈ (spans c d).filter (spanHolds o c d e), grpA o env c d (es ++ aggWhere aggAttr) k ≠ [] := by
+        ((spans c ds).filter (spanHolds o c ds e)) (rowA o env c ds (es ++ aggWhere aggAttr) aggAttr) := by
+      have hne : ∀ k ∈ (spans c ds).filter (spanHolds o c ds e), grpA o env c ds (es ++ aggWhere aggAttr) k ≠ [] := by
         intro k hk
-        obtain ⟨a, ha, hka, hok⟩ := spanHolds_rowOk o env c d e es (es ++ aggWhere aggAttr) hinj hm
+        obtain ⟨a, ha, hka, hok⟩ := spanHolds_rowOk o env c ds e es (es ++ aggWhere aggAttr) hinj hm
           (fun x hx => List.mem_append_left _ hx) k (List.mem_filter.mp hk).2
-        exact grpA_ne_nil o env c d _ k a ha hka hok
-      exact ⟨stageA_perm o ao c d false env e es aggAttr hinj hm h64,
+        exact grpA_ne_nil o env c ds _ k a ha hka hok
+      exact ⟨hstage false env aggAttr,
         List.Nodup.sublist List.filter_sublist (nodup_dedup _),
-        fun k hk => rowA_trace o env c d _ aggAttr k (hne k hk),
-        fun k hk => rowA_span o env c d _ aggAttr k (hne k hk)⟩
+        fun k hk => rowA_trace o env c ds _ aggAttr k (hne k hk),
+        fun k hk => rowA_span o env c ds _ aggAttr k (hne k hk)⟩
     have := stageB o ao (d.toDb c) _ pfx _ _ _ hSR extra hav (idxSel c es (analyzeCond [] e).2 aggAttr)
       (lookup_head _ _ env) (hperm _)
     simp only [matchedSpans_eq] at this
     exact this
-  have hmne : ∀ tr, (matchedSpans o c d e tr ≠ []) ↔ (!(matchedSpans o c d e tr).isEmpty) = true := by
-    intro tr; cases matchedSpans o c d e tr <;> simp
+  have hmne : ∀ tr, (matchedSpans o c ds e tr ≠ []) ↔ (!(matchedSpans o c ds e tr).isEmpty) = true := by
+    intro tr; cases matchedSpans o c ds e tr <;> simp
   rcases hX with ⟨hagg, rfl⟩ | ⟨a, f, v, hagg, hf, hv, hattr0, rfl⟩
   · rw [grpSel_addCols]
     refine (key "" none (fun _ _ _ _ => rfl)).congr ?_
@@ -243,35 +245,35 @@ theorem simple_traceRows (o : Oracles) (ao : AggOracles) (hp : PermInv ao) (c : 
     rw [havingG_agg o ao _ pfx a.fn a.cmp f v hf]
     unfold aggHolds
     rw [cmpName_eq_cmpSql, hf]
-    have hMn : (matchedSpans o c d e tr).Nodup := by
+    have hMn : (matchedSpans o c ds e tr).Nodup := by
       rw [← matchedSpans_eq]
       exact List.Nodup.sublist List.filter_sublist (List.Nodup.sublist List.filter_sublist (nodup_dedup _))
-    have hMt : ∀ k ∈ matchedSpans o c d e tr, k.1 = tr ∧ spanHolds o c d e k = true := by
+    have hMt : ∀ k ∈ matchedSpans o c ds e tr, k.1 = tr ∧ spanHolds o c ds e k = true := by
       intro k hk
       simp only [matchedSpans, List.mem_filter, Bool.and_eq_true, beq_iff_eq] at hk
       exact hk.2
-    have hgne : ∀ k ∈ matchedSpans o c d e tr, grpA o env c d (es ++ aggWhere a.attr) k ≠ [] := by
+    have hgne : ∀ k ∈ matchedSpans o c ds e tr, grpA o env c ds (es ++ aggWhere a.attr) k ≠ [] := by
       intro k hk
-      obtain ⟨x, hx, hkx, hok⟩ := spanHolds_rowOk o env c d e es (es ++ aggWhere a.attr) hinj hm
+      obtain ⟨x, hx, hkx, hok⟩ := spanHolds_rowOk o env c ds e es (es ++ aggWhere a.attr) hinj hm
         (fun x hx => List.mem_append_left _ hx) k (hMt k hk).2
-      exact grpA_ne_nil o env c d _ k x hx hkx hok
+      exact grpA_ne_nil o env c ds _ k x hx hkx hok
     cases hfn : a.fn with
     | count =>
       simp only
       rw [canon_count pfx _ tr _ hMn (fun k hk => (hMt k hk).1)
-        (fun k hk => rowA_span o env c d _ a.attr k (hgne k hk))]
+        (fun k hk => rowA_span o env c ds _ a.attr k (hgne k hk))]
     | sum | min | max | avg =>
       simp only
       have hattr : a.attr ≠ "" := hattr0 (by rw [hfn]; decide)
       rw [aggTexts_eq, List.map_map, List.map_map, List.filterMap_map]
-      rw [filterMap_congr_mem _ (aggValue o c d a.attr) (matchedSpans o c d e tr)]
+      rw [filterMap_congr_mem _ (aggValue o c ds a.attr) (matchedSpans o c ds e tr)]
       intro k hk
       simp only [Function.comp, get_qualify_nodot _ _ _ (show '.' ∉ "agg_val".toList from by decide)]
       by_cases hd : a.attr = "duration"
       · rw [hd]
         have hg := hgne k hk
         rw [hd] at hg
-        exact rowA_agg_dur o env c d _ k hcons hg
-      · exact rowA_agg_attr o env c d es a.attr k hattr hd
+        exact rowA_agg_dur o env c ds _ k hcons hg
+      · exact rowA_agg_attr o env c ds es a.attr k hattr hd
 
 end Qryn.TraceQL
